@@ -30,7 +30,7 @@ def run(ctx):
 def accuracy(ctx):
     tr = ctx.trace("ADWINAccuracy", "__init__")
     cs = q.find_calls(tr, "ADWIN.__init__")
-    ctx.ob("ROLE", "ADWINAccuracy.__init__", "calls ADWIN.__init__", len(cs) == 1, "")
+    ctx.anchor("ADWINAccuracy.__init__", "calls ADWIN.__init__", len(cs) == 1, "")
     for p in PARAMS:
         fv = tr.final.attrs.get(p) if tr.final else None
         ctx.ob("FWD", "ADWINAccuracy.__init__", "constructor parameter %s reaches the detector" % p, fv == P(p),
@@ -110,13 +110,13 @@ def formulas(ctx):
     tc = ctx.trace("ADWIN", "_compress_buckets")
     ab = mcalls(tc, "add_bucket")
     rb = mcalls(tc, "remove_buckets")
-    ctx.ob("ROLE", "ADWIN._compress_buckets", "merge adds one bucket to the next row and removes two", len(ab) == 1 and len(rb) == 1 and rb[0].args == (const(2),), "")
+    ctx.anchor("ADWIN._compress_buckets", "merge adds one bucket to the next row and removes two", len(ab) == 1 and len(rb) == 1 and rb[0].args == (const(2),), "")
     if ab and rb:
         row = rb[0].recv
         def bt(i, what):
             return atom(("sub", atom(("getattr", row, what)), const(i)))
         posv = [a for a in T.atoms_of(ab[0].args[1], "pow")]
-        ctx.ob("ROLE", "ADWIN._compress_buckets", "bucket size is a power of two of the row position", len(set(posv)) == 1, "")
+        ctx.anchor("ADWIN._compress_buckets", "bucket size is a power of two of the row position", len(set(posv)) == 1, "")
         if posv:
             n = atom(posv[0])
             ok_n = posv[0][1] == const(2)
